@@ -9,7 +9,8 @@ Technique
 ---------
 (numbers = the ALLOWED devices of RULES_GUIDE.md "What counts as *static* here"; no rule interprets /repo code on data
 chosen by the checker: the beacon id enters the abstract interpreter as the top integer, the user/computer/process names
-as strings of unknown length, loop-carried and branch-dependent values stay abstract / symbolic)
+as strings of unknown length, loop-carried and branch-dependent values stay abstract / symbolic; the only concrete
+values are constants of the analysed code - R7's cases are the members of the BeaconCommand enum, device 5)
 
 R1  1 + 3: flow-insensitive may-alias / mutation analysis with `self.task_map` as the shared store (csverif.alias: who may
     write a registered handler list, what get_handlers returns); register_task: the statement that stores the handler
@@ -39,12 +40,24 @@ R4  2: random.seed(..) dominates every draw that feeds aes_rand, no store of the
     the normalised id (def-use substitution, structural comparison with the last store of self.beacon_id, names not
     rebound in between by CFG reachability); 4: length-interval domain for "exactly 16 bytes" (int.to_bytes(n) has
     length n, random.randbytes(n) has length n); 6: constant folding of the bit count / class constants.
-R5  4: length-interval domain (str.encode() <= 4 bytes per character, x[:k] has length <= k, refinement by
-    `len(x) > k` tests); 6: the limit 128 - 11 - fixed part comes from the parsed cstruct definition of BeaconMetadata.
+R5  4: length-interval domain (str.encode() / bytes(str, codec) <= 4 bytes per character, x[:k] / x[a:b] has length
+    <= k / b - a for every sliceable x, refinement by `len(x) > k` tests; kind transfer only - length unknown - for
+    f-strings, str.format, %-formatting, sep.join and the other str -> str methods); 6: the limit 128 - 11 - fixed part
+    comes from the parsed cstruct definition of BeaconMetadata.  A value of unknown kind (built by operations the domain
+    does not model) with no slice bound is undecided; a bytes value whose bound is missing or too large is a violation.
 R6  3: the returned expression as a polynomial normal form (SymPoly) over sleeptime, jitter and one uniform draw, built by
     def-use substitution, compared structurally with the band ends; lemmas: random.uniform(a, b) lies between a and b,
     random.random() in [0, 1], float(x) = x, and an affine function A + B*U of U in [lo, hi] ranges exactly between
     A + B*lo and A + B*hi.  Not affine / more than one draw / other atoms: undecided.  Settings source: 3 (def-use chain).
+R7  5 + 6 + 2 + 3: case analysis over the complete finite vocabulary of the dispatcher - the members of the enum class
+    that get_handlers converts its key parameter to (parsed from c_c2.py; one case per distinct value, the first name of a
+    value being the canonical `.name`).  Per member the key parameter is that member's value (constant propagation):
+    branch edges whose test folds to a constant are removed from a copy of the CFG (2), locals are followed along the
+    reaching definitions of the pruned CFG (3), and the name handed to `getattr(self, <name>)` is constant-folded (6:
+    str methods / slicing / concatenation / f-string / %-format on constant operands, `.name` / `.value` / truthiness of
+    the member).  The folded name is compared with the documented one (`on_` + member name without `COMMAND_`, lower
+    case) for every member - a complete table comparison.  No input is chosen by the checker: the cases are exactly the
+    values for which `Enum(command_id)` does not raise.  A name that does not fold to a single constant: undecided.
 """
 
 from __future__ import annotations
@@ -120,17 +133,25 @@ def run(ctx):
         "single dispatch site in the beacon loop; parity/interval abstract interpretation of the beacon id that reaches "
         "the metadata; random.seed(f(normalised id)) dominates the draw that feeds aes_rand with no intervening RNG use; "
         "length interval of the metadata info bytes against 128-11-59; the sleep time as a polynomial normal form, affine in "
-        "one uniform draw, whose values at the ends of the draw's range are compared with the jitter band.  No /repo code is "
-        "run or interpreted on concrete data: the beacon id is the top integer, the names are strings of unknown length."
+        "one uniform draw, whose values at the ends of the draw's range are compared with the jitter band; the name under "
+        "which get_handlers looks up the on_<command> method, constant-folded per member of BeaconCommand (the dispatcher's "
+        "complete vocabulary) and compared with the documented name.  No /repo code is run or interpreted on data chosen by "
+        "the checker: the beacon id is the top integer, the names are strings of unknown length, the command cases are the "
+        "enum members parsed from c_c2.py."
     )
-    rep.not_decided = ["behaviour of the loop against a live server", "that handlers themselves behave"]
+    rep.not_decided = ["behaviour of the loop against a live server", "that handlers themselves behave",
+                       "the on_empty_task lookup for the empty task (command id None / a falsy member)"]
     rep.trusted_base = [
         "CPython ast", "networkx dominators", "interval/parity/length domains and SymPoly in csverif/absint.py",
         "may-alias / mutation analysis in csverif/alias.py",
         "lemmas (Python ints): x - x % 2, x - (x & 1), x ^ (x & 1) are even and in [x-1, x]; (x >> 1) << 1 and 2*x are even; "
         "x % 2 / x & 1 truthy <=> x odd; x >= 0 and not (x >> k) => x < 2**k; 0 <= x < 2**(k+1) and not (x & 2**k) => x < 2**k; "
         "x in range(a, b) <=> a <= x < b; x & m in [0, m] for m >= 0; x % m in [0, m-1] for m >= 1",
-        "int.to_bytes(n, ..) and random.randbytes(n) have length n; str.encode() yields at most 4 bytes per character; len(x[:k]) <= k",
+        "int.to_bytes(n, ..) and random.randbytes(n) have length n; str.encode() / bytes(str, codec) yield at most 4 bytes per character; "
+        "len(x[:k]) <= k and len(x[a:b]) <= b - a for every sliceable x; str.format / % / join / f-strings yield a str",
+        "the documented method-handler convention on_<command name without COMMAND_, lower case> (docs/tutorials/minimal_beacon_client.rst); "
+        "Enum(value).name is the first name defined for the value; an IntEnum member is truthy iff its value is non-zero; "
+        "CPython's own str methods applied to constant operands (constant folding)",
         "random.uniform(a, b) lies between a and b, random.random() in [0, 1]; an affine function of a draw in [lo, hi] ranges between its values at lo and hi",
     ]
     r1(ctx)
@@ -139,6 +160,7 @@ def run(ctx):
     r4(ctx)
     r5(ctx)
     r6(ctx)
+    r7(ctx)
 
 
 # ------------------------------------------------------------------------------------------------ generic helpers
@@ -892,8 +914,24 @@ class _Interp(absint.Interp):
             return True
         return False
 
+    # str -> str / bytes -> bytes methods whose result length the domain does not bound (kind transfer only)
+    _TEXT_METHODS = frozenset({
+        "format", "format_map", "join", "replace", "strip", "lstrip", "rstrip", "title", "capitalize", "casefold", "swapcase",
+        "lower", "upper", "expandtabs", "center", "ljust", "rjust", "zfill", "translate", "removeprefix", "removesuffix"})
+
+    def _slice(self, base, sl, env):
+        # x[None:k], x[a:b:1] are x[:k], x[a:b]
+        lower = None if isinstance(sl.lower, ast.Constant) and sl.lower.value is None else sl.lower
+        upper = None if isinstance(sl.upper, ast.Constant) and sl.upper.value is None else sl.upper
+        step = None if sl.step is None or _c(sl.step) == 1 or (isinstance(sl.step, ast.Constant) and sl.step.value is None) else sl.step
+        return super()._slice(base, ast.Slice(lower=lower, upper=upper, step=step), env)
+
     def _binop(self, e, env):
         v = super()._binop(e, env)
+        if v.kind is None and isinstance(e.op, ast.Mod):
+            a = self.ev(e.left, env)
+            if a.kind in ("str", "bytes"):
+                return absint.AVal(a.kind)  # printf-style formatting yields the kind of the format, length unknown
         if v.kind == "int" and v.parity != 0 and self._clears_bit0(e):
             v = replace(v, parity=0)
             if isinstance(e.op, (ast.Sub, ast.BitXor)):
@@ -916,6 +954,21 @@ class _Interp(absint.Interp):
             nv = self.ev(c.args[0], env)
             if nv.kind == "int" and nv.itv.nonneg:
                 return absint.AVal("bytes", absint.TOP, nv.itv)
+        if v.kind is None and isinstance(c.func, ast.Attribute) and c.func.attr in self._TEXT_METHODS:
+            recv = self.ev(c.func.value, env)
+            if recv.kind in ("str", "bytes"):
+                return absint.AVal(recv.kind)  # "{}".format(..), sep.join(..), x.replace(..): same kind, length unknown
+        if v.kind is None and name in ("bytes", "bytearray") and c.args:
+            # bytes(text, "utf-8") is text.encode("utf-8")
+            a0 = self.ev(c.args[0], env)
+            if a0.kind == "str" and (len(c.args) == 2 or kwarg(c, "encoding") is not None):
+                hi = None if a0.length.hi is None else 4 * a0.length.hi
+                return absint.AVal("bytes", absint.TOP, absint.Itv(0, hi))
+        if v.kind is None and name in ("str.encode",) and c.args:
+            a0 = self.ev(c.args[0], env)
+            if a0.kind == "str":
+                hi = None if a0.length.hi is None else 4 * a0.length.hi
+                return absint.AVal("bytes", absint.TOP, absint.Itv(0, hi))
         return v
 
 
@@ -1169,7 +1222,13 @@ def r5(ctx):
             ctx.undecided("R5", "ABS", f, text, f"`{src(st)[:60]}` is not reached by the abstract interpreter", st)
             continue
         v = it.ev(value, env)
-        ok = v.kind == "bytes" and v.length.hi is not None and v.length.hi <= limit
+        # a bound established by slicing holds for every sliceable value (len(x[a:b]) <= b - a), also when the operations
+        # that built x are not modelled (kind unknown); without such a bound an unmodelled value is not a located overflow
+        ok = v.kind in ("bytes", None) and v.length.hi is not None and v.length.hi <= limit
+        if not ok and v.kind is None:
+            ctx.undecided("R5", "ABS", f, text, f"the value stored at `{src(st)[:60]}` is built by operations the length domain does not model "
+                          f"(`{src(inline(f.node, value))[:80]}`); no bound on its length is inferred", st)
+            continue
         ctx.ob("R5", "ABS", f, text, ok,
                f"len(info bytes) has interval {v.length} (kind {v.kind}) for arbitrary user/computer/process names (str.encode() is up to 4 bytes per character); "
                f"the metadata must fit a 1024-bit RSA key: 128 - 11 (PKCS#1 v1.5) - {fixed} (fixed part) = {limit} bytes", st)
@@ -1255,3 +1314,421 @@ def r6(ctx):
     else:
         ok = all(found.values())
         ctx.ob("R6", "AGREE", run, t2, ok, "sleeptime and jitter default to the beacon's SETTING_SLEEPTIME / SETTING_JITTER" if ok else f"sleeptime/jitter not taken from the beacon settings: {found}")
+
+
+# ------------------------------------------------------------------------------------------------ R7
+# The documented registration convention for method handlers (docs/tutorials/minimal_beacon_client.rst, "Subclassed
+# client": "defining a ``on_<command>`` method", e.g. `on_sleep` for COMMAND_SLEEP): the method of command
+# COMMAND_<X> is `on_<x>`, <x> = <X> in lower case.
+METHOD_PREFIX = "on_"
+MEMBER_PREFIX = "COMMAND_"
+
+# str methods that are constant-folded when receiver and arguments are constants
+_FOLD_STR_METHODS = frozenset({
+    "replace", "lower", "upper", "casefold", "lstrip", "rstrip", "strip", "removeprefix", "removesuffix", "title", "capitalize",
+    "swapcase", "split", "rsplit", "partition", "rpartition", "startswith", "endswith", "format", "join", "find", "rfind",
+    "index", "rindex", "count", "isupper", "islower", "ljust", "rjust", "center", "zfill"})
+_MAX_ALTS = 12
+
+
+class _Unk(Exception):
+    """the value of an expression is not a constant the per-member constant propagation can determine"""
+
+
+class _Member(tuple):
+    """an enum member as a constant: (canonical name, value)"""
+    __slots__ = ()
+
+    def __new__(cls, name, value):
+        return tuple.__new__(cls, (name, value))
+
+    name = property(lambda self: self[0])
+    value = property(lambda self: self[1])
+
+
+def _enum_members(ctx, fq):
+    """[(canonical name, value)] of the enum class `fq`, one entry per distinct value (the first name given to a value is
+    the canonical one: Enum(value).name), or None when `fq` is not a parsed Enum class with constant int members."""
+    try:
+        cls = ctx.repo.cls(fq)
+        attrs = ctx.repo.class_attrs(fq)
+    except Exception:
+        return None
+    if not any((dotted(b) or "").split(".")[-1] in ("IntEnum", "Enum", "IntFlag", "Flag") for b in getattr(cls, "bases", [])):
+        return None
+    seen, out = set(), []
+    for name, vexpr in attrs.items():
+        if name.startswith("_"):
+            continue
+        v = _c(vexpr)
+        if not isinstance(v, int) or isinstance(v, bool):
+            return None
+        if v not in seen:
+            seen.add(v)
+            out.append((name, v))
+    return out
+
+
+class _MemberEval:
+    """Constant propagation through one function for ONE value of its key parameter (a member of the enum the function
+    dispatches on): branch edges whose test folds to a constant under that value are removed from a copy of the CFG,
+    locals are followed along the reaching definitions of the pruned CFG, constant expressions over str / int / tuple
+    constants are folded.  The result of `values(expr, at)` is the set of constants `expr` may have, `_Unk` is raised when
+    some alternative is not a constant this folding determines."""
+
+    def __init__(self, ctx, f, key, enum_fq, enum_local, by_value, member):
+        self.ctx, self.f, self.fn = ctx, f, f.node
+        self.key, self.enum_fq, self.enum_local, self.by_value, self.member = key, enum_fq, enum_local, by_value, member
+        self.fv = FuncView.of(self.fn)
+        base = ctx.cfg(f)
+        self.cfg = copy.copy(base)
+        self.cfg.g = base.g.copy()
+        self.cfg._idom = None
+        self.cfg._ipdom = None
+        self._prune()
+
+    # ---- CFG pruning (device 2): only edges whose test is a constant for this member are removed
+    def _prune(self):
+        for _round in range(4):
+            changed = False
+            for n, st in list(self.cfg.stmt.items()):
+                if not isinstance(st, (ast.If, ast.While)) or not self.cfg.reaches(ENTRY, n):
+                    continue
+                try:
+                    truth = {self._truth(v) for v in self.values(st.test, st)}
+                except _Unk:
+                    continue
+                if len(truth) != 1:
+                    continue
+                dead = self.cfg.edge_node(st, "false" if truth.pop() else "true")
+                if self.cfg.g.has_edge(n, dead):
+                    self.cfg.g.remove_edge(n, dead)
+                    changed = True
+            if not changed:
+                break
+
+    def live(self, st):
+        return st is not None and self.cfg.has(st) and self.cfg.reaches(ENTRY, self.cfg.node(st))
+
+    def _reaching(self, name, at):
+        """definitions (statement, value) of local `name` that reach statement `at` in the pruned CFG"""
+        cfg = self.cfg
+        if at is None or not cfg.has(at):
+            raise _Unk(f"use of `{name}` outside the CFG")
+        use = cfg.node(at)
+        nodes = []
+        for st, v in assignments_to(self.fn, name):
+            s = st if isinstance(st, ast.stmt) else self.fv.stmt_of(st)
+            if s is None or not cfg.has(s):
+                raise _Unk(f"binding of `{name}` outside the CFG")
+            n = cfg.edge_node(s, "iter") if isinstance(s, (ast.For, ast.AsyncFor)) else cfg.node(s)
+            nodes.append((n, s, v))
+        all_nodes = [n for n, _s, _v in nodes]
+        out = []
+        for n, s, v in nodes:
+            if n == use or not cfg.reaches(ENTRY, n):
+                continue
+            if cfg.reaches(n, use, avoiding=[x for x in all_nodes if x != n]):
+                out.append((s, v))
+        return out
+
+    @staticmethod
+    def _truth(v):
+        return bool(v.value) if isinstance(v, _Member) else bool(v)  # an IntEnum member is truthy iff its value is not 0
+
+    @staticmethod
+    def _plain(v):
+        return v.value if isinstance(v, _Member) else v  # IntEnum members compare (and hash) as their int value
+
+    @staticmethod
+    def _norm(v):
+        if isinstance(v, list):
+            v = tuple(v)
+        if isinstance(v, tuple) and not isinstance(v, _Member):
+            if not all(isinstance(x, (str, int, type(None))) for x in v):
+                raise _Unk("non-constant tuple")
+            return v
+        if isinstance(v, (str, int, type(None), _Member)):
+            return v
+        raise _Unk(f"result of type {type(v).__name__}")
+
+    def _product(self, exprs, at, depth):
+        combos = [()]
+        for e in exprs:
+            vs = self.values(e, at, depth + 1)
+            combos = [c + (v,) for c in combos for v in vs]
+            if len(combos) > _MAX_ALTS:
+                raise _Unk("too many alternatives")
+        return combos
+
+    def values(self, e, at, depth=0):
+        out = self._values(e, at, depth)
+        if not out or len(out) > _MAX_ALTS:
+            raise _Unk("no / too many alternatives")
+        return out
+
+    def _values(self, e, at, depth):
+        if depth > 14:
+            raise _Unk("expression too deep")
+        if isinstance(e, ast.Constant):
+            if isinstance(e.value, (str, int, type(None))):
+                return {e.value}
+            raise _Unk(f"constant of type {type(e.value).__name__}")
+        if isinstance(e, ast.Name):
+            if e.id == self.key:
+                if assignments_to(self.fn, e.id):
+                    raise _Unk("the key parameter is rebound")
+                return {self.member.value}
+            if e.id in params(self.fn):
+                raise _Unk(f"parameter `{e.id}`")
+            defs = self._reaching(e.id, at)
+            if not defs:
+                k = _const(self.ctx, self.f, e)
+                if isinstance(k, (str, int)):
+                    return {k}
+                raise _Unk(f"`{e.id}` has no reaching definition")
+            out = set()
+            for st, v in defs:
+                if v is None:
+                    raise _Unk(f"`{e.id}` is bound by a statement without a plain value")
+                out |= self.values(v, st, depth + 1)
+            return out
+        if isinstance(e, ast.Attribute):
+            if isinstance(e.value, ast.Name) and e.value.id == self.enum_local and not assignments_to(self.fn, e.value.id):
+                attrs = self.ctx.repo.class_attrs(self.enum_fq)
+                if e.attr in attrs:
+                    v = _c(attrs[e.attr])
+                    if v in self.by_value:
+                        return {_Member(self.by_value[v], v)}
+                raise _Unk(f"`{src(e)}`")
+            if e.attr in ("name", "value", "_name_", "_value_"):
+                out = set()
+                for b in self.values(e.value, at, depth + 1):
+                    if not isinstance(b, _Member):
+                        raise _Unk(f"`.{e.attr}` of a value that is not an enum member")
+                    out.add(b.name if e.attr in ("name", "_name_") else b.value)
+                return out
+            k = _const(self.ctx, self.f, e)
+            if isinstance(k, (str, int)):
+                return {k}
+            raise _Unk(f"`{src(e)[:40]}`")
+        if isinstance(e, ast.Call):
+            return self._call(e, at, depth)
+        if isinstance(e, ast.Subscript):
+            out = set()
+            if isinstance(e.slice, ast.Slice):
+                parts = [p if p is not None else ast.Constant(value=None) for p in (e.slice.lower, e.slice.upper, e.slice.step)]
+                idxs = [slice(*c) for c in self._product(parts, at, depth)]
+            else:
+                idxs = list(self.values(e.slice, at, depth + 1))
+            for b in self.values(e.value, at, depth + 1):
+                for i in idxs:
+                    if not isinstance(b, (str, tuple)) or isinstance(b, _Member) or not (isinstance(i, slice) or (isinstance(i, int) and not isinstance(i, bool))):
+                        raise _Unk("subscript of a non-sequence constant")
+                    try:
+                        out.add(self._norm(b[i]))
+                    except (IndexError, TypeError, ValueError):
+                        raise _Unk("subscript raises")
+            return out
+        if isinstance(e, ast.JoinedStr):
+            parts = []
+            for p in e.values:
+                if isinstance(p, ast.FormattedValue):
+                    if p.conversion not in (-1, 115) or p.format_spec is not None:
+                        raise _Unk("formatted value with a conversion / format spec")
+                    parts.append(p.value)
+                else:
+                    parts.append(p)
+            out = set()
+            for c in self._product(parts, at, depth):
+                if not all(isinstance(x, str) or (isinstance(x, int) and not isinstance(x, (bool, _Member))) for x in c):
+                    raise _Unk("f-string over a non-str constant")
+                out.add("".join(str(x) for x in c))
+            return out
+        if isinstance(e, ast.BinOp):
+            out = set()
+            for a, b in self._product([e.left, e.right], at, depth):
+                a, b = self._plain(a), self._plain(b)
+                try:
+                    if isinstance(e.op, ast.Add) and type(a) is type(b) and isinstance(a, (str, int, tuple)):
+                        out.add(self._norm(a + b))
+                    elif isinstance(e.op, ast.Sub) and isinstance(a, int) and isinstance(b, int):
+                        out.add(a - b)
+                    elif isinstance(e.op, ast.Mod) and isinstance(a, str) and (isinstance(b, str) or (isinstance(b, tuple) and all(isinstance(x, str) for x in b))):
+                        out.add(a % b)
+                    elif isinstance(e.op, ast.Mult) and isinstance(a, str) and isinstance(b, int) and 0 <= b <= 4:
+                        out.add(a * b)
+                    else:
+                        raise _Unk(f"operator in `{src(e)[:40]}`")
+                except (TypeError, ValueError):
+                    raise _Unk("operator raises")
+            return out
+        if isinstance(e, ast.IfExp):
+            try:
+                truth = {self._truth(v) for v in self.values(e.test, at, depth + 1)}
+            except _Unk:
+                truth = {True, False}
+            out = set()
+            if True in truth:
+                out |= self.values(e.body, at, depth + 1)
+            if False in truth:
+                out |= self.values(e.orelse, at, depth + 1)
+            return out
+        if isinstance(e, ast.BoolOp):
+            cur = self.values(e.values[0], at, depth + 1)
+            for nxt in e.values[1:]:
+                keep = {v for v in cur if self._truth(v) == isinstance(e.op, ast.Or)}
+                if len(keep) != len(cur):
+                    keep |= self.values(nxt, at, depth + 1)
+                cur = keep
+            return cur
+        if isinstance(e, ast.UnaryOp):
+            vs = self.values(e.operand, at, depth + 1)
+            if isinstance(e.op, ast.Not):
+                return {not self._truth(v) for v in vs}
+            if isinstance(e.op, ast.USub) and all(isinstance(self._plain(v), int) for v in vs):
+                return {-self._plain(v) for v in vs}
+            raise _Unk("unary operator")
+        if isinstance(e, ast.Compare) and len(e.ops) == 1:
+            out = set()
+            op = e.ops[0]
+            for a, b in self._product([e.left, e.comparators[0]], at, depth):
+                a, b = self._plain(a), self._plain(b)
+                try:
+                    if isinstance(op, (ast.Eq, ast.NotEq)):
+                        out.add((a == b) == isinstance(op, ast.Eq))
+                    elif isinstance(op, (ast.Is, ast.IsNot)) and (a is None or b is None):
+                        out.add(((a is None) == (b is None)) == isinstance(op, ast.Is))
+                    elif isinstance(op, (ast.In, ast.NotIn)) and isinstance(b, (str, tuple)):
+                        out.add((a in b) == isinstance(op, ast.In))
+                    elif isinstance(op, (ast.Lt, ast.LtE, ast.Gt, ast.GtE)) and isinstance(a, int) and isinstance(b, int):
+                        out.add({ast.Lt: a < b, ast.LtE: a <= b, ast.Gt: a > b, ast.GtE: a >= b}[type(op)])
+                    else:
+                        raise _Unk(f"comparison `{src(e)[:40]}`")
+                except TypeError:
+                    raise _Unk("comparison raises")
+            return out
+        if isinstance(e, (ast.Tuple, ast.List)):
+            if any(isinstance(x, ast.Starred) for x in e.elts):
+                raise _Unk("starred element")
+            return {self._norm(tuple(self._plain(x) for x in c)) for c in self._product(list(e.elts), at, depth)}
+        raise _Unk(f"`{src(e)[:40]}`")
+
+    def _call(self, c, at, depth):
+        if any(isinstance(a, ast.Starred) for a in c.args) or any(k.arg is None for k in c.keywords):
+            raise _Unk("star arguments")
+        cal = self.ctx.rs.resolve_call(self.f, c)
+        if cal.kind == "class" and cal.fq == self.enum_fq:
+            if len(c.args) != 1 or c.keywords:
+                raise _Unk("enum call with other than one argument")
+            out = set()
+            for v in self.values(c.args[0], at, depth + 1):
+                v = self._plain(v)
+                if not isinstance(v, int) or v not in self.by_value:
+                    raise _Unk("enum call on a value that is not a member value")
+                out.add(_Member(self.by_value[v], v))
+            return out
+        name = dotted(c.func)
+        if name in ("len", "str", "bool", "int") and len(c.args) == 1 and not c.keywords:
+            out = set()
+            for v in self.values(c.args[0], at, depth + 1):
+                if name == "len" and isinstance(v, (str, tuple)) and not isinstance(v, _Member):
+                    out.add(len(v))
+                elif name == "str" and (isinstance(v, str) or (isinstance(v, int) and not isinstance(v, (bool, _Member)))):
+                    out.add(str(v))
+                elif name == "bool":
+                    out.add(self._truth(v))
+                elif name == "int" and isinstance(self._plain(v), int):
+                    out.add(int(self._plain(v)))
+                else:
+                    raise _Unk(f"`{name}` of a constant of type {type(v).__name__}")
+            return out
+        if isinstance(c.func, ast.Attribute) and c.func.attr in _FOLD_STR_METHODS:
+            out = set()
+            kw_names = [k.arg for k in c.keywords]
+            for combo in self._product([c.func.value] + list(c.args) + [k.value for k in c.keywords], at, depth):
+                recv, args, kws = combo[0], combo[1:1 + len(c.args)], combo[1 + len(c.args):]
+                if not isinstance(recv, str):
+                    raise _Unk(f"`.{c.func.attr}` on a constant that is not a str")
+                args = [self._plain(a) for a in args]
+                try:
+                    out.add(self._norm(getattr(recv, c.func.attr)(*args, **dict(zip(kw_names, (self._plain(k) for k in kws))))))
+                except (TypeError, ValueError, IndexError, KeyError, AttributeError):
+                    raise _Unk(f"`.{c.func.attr}` raises on its constant operands")
+            return out
+        raise _Unk(f"call `{src(c)[:40]}`")
+
+
+def r7(ctx):
+    """The method handler of a command is looked up under the documented name: for every member COMMAND_<X> of the enum
+    that get_handlers(key) dispatches on, the name handed to getattr(self, ..) is `on_<x>`."""
+    g = ctx.repo.func("client.HttpBeaconClient.get_handlers")
+    fn = g.node
+    text = "getattr(self, f\"on_{command_name}\", None) for every BeaconCommand"
+    ps = params(fn)
+    if len(ps) < 2:
+        ctx.undecided("R7", "VOCAB", g, text, "get_handlers has no command id parameter any more")
+        return
+    K = ps[1]
+    fv = FuncView.of(fn)
+    sites = []
+    for c in fn_calls(fn):
+        if dotted(c.func) == "getattr" and len(c.args) >= 2 and _is_name(c.args[0], "self") and not isinstance(_const(ctx, g, c.args[1]), str):
+            sites.append(c)
+    if not sites:
+        ctx.undecided("R7", "VOCAB", g, text, "no getattr(self, <computed name>) lookup of a method handler was located in get_handlers")
+        return
+    # the enum the key is converted to: a resolved class call on the key parameter
+    enum_fq = enum_local = None
+    for c in fn_calls(fn):
+        cal = ctx.rs.resolve_call(g, c)
+        if cal.kind == "class" and len(c.args) == 1 and _is_name(inline(fn, c.args[0]), K) and isinstance(c.func, ast.Name):
+            members = _enum_members(ctx, cal.fq)
+            if members:
+                enum_fq, enum_local = cal.fq, c.func.id
+                break
+    if enum_fq is None:
+        ctx.undecided("R7", "VOCAB", g, text, "the enum that the command id is converted to was not located (no `Enum(command_id)` call on a parsed Enum class)")
+        return
+    by_value = {v: n for n, v in members}
+    wrong, unknown, checked, skipped = [], [], 0, []
+    for mname, mval in members:
+        if not mname.startswith(MEMBER_PREFIX) or mval == 0:
+            skipped.append(mname)
+            continue
+        expected = METHOD_PREFIX + mname[len(MEMBER_PREFIX):].lower()
+        ev = _MemberEval(ctx, g, K, enum_fq, enum_local, by_value, _Member(mname, mval))
+        exact, possible, why = False, False, None
+        looked = set()
+        for c in sites:
+            st = fv.stmt_of(c)
+            if not ev.live(st):
+                continue
+            try:
+                names = ev.values(c.args[1], st)
+            except _Unk as e:
+                possible, why = True, str(e)
+                continue
+            looked |= {repr(n) for n in names}
+            if names == {expected}:
+                exact = True
+            elif expected in names:
+                possible, why = True, "more than one candidate name"
+        checked += 1
+        if exact:
+            continue
+        if possible:
+            unknown.append(f"{mname}: {why}")
+        else:
+            wrong.append(f"{mname} -> {', '.join(sorted(looked)) or 'no lookup'} (documented: '{expected}')")
+    ctx.rep.count("beacon_commands", checked, floor=50)
+    if wrong:
+        ctx.ob("R7", "VOCAB", g, text, False,
+               f"for {len(wrong)} of {checked} commands the on_<command> method is looked up under another name than the documented one, so a method "
+               f"handler registered for the command is never dispatched (and the catch-all handlers run instead): " + "; ".join(wrong[:8]) + (" ..." if len(wrong) > 8 else ""), sites[0])
+    elif unknown:
+        ctx.undecided("R7", "VOCAB", g, text, f"the looked-up method name is not a constant the per-command constant propagation determines for {len(unknown)} of {checked} commands: " + "; ".join(unknown[:3]), sites[0])
+    else:
+        ctx.ob("R7", "VOCAB", g, text, True,
+               f"for each of the {checked} commands (distinct values of {enum_fq.split('.')[-1]}) the method handler is looked up as on_<command name without {MEMBER_PREFIX}, lower case>"
+               + (f"; not covered: {skipped}" if skipped else ""), sites[0])
